@@ -60,6 +60,58 @@ impl Walk<'_> {
         if children.is_empty() {
             self.leaves += 1;
         }
+        // the other ways of traversing the same node (count, last, nth, fold, size_hint - what the
+        // CLI's weighted pick uses) must walk the same entries as repeated next()
+        {
+            let same = |x: &chess_lookup::BookMove, y: &chess_lookup::BookMove| x.source == y.source && x.dest == y.dest && x.children == y.children;
+            let n = children.len();
+            let mut wrong: Option<String> = None;
+            let (lo, hi) = handle.into_iter().size_hint();
+            if lo > n || hi.map_or(false, |h| h < n) {
+                wrong = Some(format!("size_hint() = ({lo}, {hi:?}) but next() yields {n} moves"));
+            }
+            let cnt = handle.into_iter().count();
+            if cnt != n {
+                wrong = Some(format!("count() = {cnt} but next() yields {n} moves"));
+            }
+            let folded = handle.into_iter().fold(0usize, |k, _| k + 1);
+            if folded != n {
+                wrong = Some(format!("fold visits {folded} moves but next() yields {n}"));
+            }
+            match (handle.into_iter().last(), children.last()) {
+                (None, None) => {}
+                (Some(x), Some(y)) if same(&x, y) => {}
+                (x, y) => wrong = Some(format!("last() = {x:?} but the last move from next() is {y:?}")),
+            }
+            for k in 0..=n + 1 {
+                let mut it = handle.into_iter();
+                let got = it.nth(k);
+                let ok = match (&got, children.get(k)) {
+                    (None, None) => true,
+                    (Some(x), Some(y)) => same(x, y) && match (it.next(), children.get(k + 1)) {
+                        (None, None) => true,
+                        (Some(p), Some(q)) => same(&p, q),
+                        _ => false,
+                    },
+                    _ => false,
+                };
+                if !ok {
+                    wrong = Some(format!("nth({k}) = {got:?} (then next()) differs from the {n} moves next() yields"));
+                    break;
+                }
+            }
+            self.c.add("traversal-method-comparisons", 5 + n as u64);
+            if let Some(w) = wrong {
+                self.c.violation(
+                    "book-traversal-methods-disagree",
+                    "iter",
+                    format!("node after [{}]: {w}", line_str(path)),
+                    obj().set("line", line_str(path)),
+                );
+                self.stop = true;
+                return;
+            }
+        }
         for bm in children {
             self.nodes += 1;
             self.c.eval();
